@@ -1,4 +1,4 @@
-From QV Require Import model.Base model.Lang model.Types model.Tir model.Builder model.Passes model.TirCase gen.GenE0 proofs.InterpProofs proofs.BuilderSafe proofs.BuilderSafeStmt proofs.BuilderSafeSwitch props.C07.
+From QV Require Import model.Base model.Lang model.Types model.Tir model.Builder model.Passes model.TirCase gen.GenE0 proofs.InterpProofs proofs.BuilderSafe proofs.BuilderSafeStmt proofs.BuilderSafeSwitch proofs.BuilderCfg props.C07.
 Check (C07_interp_total : forall E c, evaluate_code E c <> OutOfFuel).
 Check (C07_repaired_inputs).
 Check (C07_expressions_never_panic : forall E env L e s,
@@ -6,7 +6,7 @@ Check (C07_expressions_never_panic : forall E env L e s,
   match walk_expr E env e s with (P _, _) => False | (_, s') => RegB (nb s) s s' end).
 Check (C07_initial_state_good : Good bstate0).
 Check (C07_statements_never_panic : forall E s, wfsw s = true -> forall env brk st,
-  Good st -> envwf (nloc st) env ->
+  Good st -> envwf (nloc st) env -> bound_of brk <= nb st ->
   match walk_stmt E env brk s st with
   | (P _, _) => False
   | (V (ok, env'), st') => RegB (nb st) st st' /\ envwf (nloc st') env'
@@ -15,3 +15,4 @@ Check (C07_statements_never_panic : forall E s, wfsw s = true -> forall env brk 
 Check (C07_translator_never_panics : forall E cb, wf_callback cb = true ->
   match walk_callback E cb bstate0 with (P _, _) => False | _ => True end).
 Check (eq_refl : wfsw (SSwitch (EInt 1) [] (Some (1%nat, []))) = false).
+Check (C07_build_never_panics : forall E cb, wf_callback cb = true -> bu_panic (build_callback E cb) = None).
